@@ -49,7 +49,7 @@ def generate(seed, tier="quick"):
     rnd = tape.sub(seed, PROPERTY, "gen")
     max_n = 120 if tier == "quick" else 300
     lib_n = rnd.choice([1, 2, 3, 5, 8, 13, 21, 34, 55, 89, rnd.randint(1, max_n), rnd.randint(1, max_n)])
-    cfg = common.base_config(seed, PROPERTY, rnd, n_libs=2, n_data=2, lib_n=None)
+    cfg = common.base_config(seed, PROPERTY, rnd, tier=tier, n_libs=2, n_data=2, lib_n=None)
     cfg["libraries"][0]["n"] = lib_n
     cfg["libraries"][1]["n"] = min(cfg["libraries"][1]["n"], max_n)
     for d in cfg["datasets"]:
